@@ -4,6 +4,7 @@ import (
 	"fmt"
 	"strconv"
 	"strings"
+	"time"
 
 	"verifsim/core"
 	gengen "verifsim/gen"
@@ -594,7 +595,10 @@ func decodeMixed(c *Ctx, prop string, class int) {
 		case 3:
 			// the smallest thing of one kind, thousands of times: what it costs per copy must stay
 			// within the per-byte allowance
-			kind, sub := y.Intn(7), y.Intn(4)
+			kind, sub := y.Intn(8), y.Intn(4)
+			if kind == 7 {
+				kind = 8
+			}
 			n := []int{300, 4000, 9000, 25000, 45000}[y.Intn(5)]
 			junk := []int{0, 16, 300, 1400}[y.Intn(4)]
 			if kind == 3 && n*junk > 3<<20 {
@@ -606,7 +610,7 @@ func decodeMixed(c *Ctx, prop string, class int) {
 				kind = 7 // (the date packets are ManyTiny's default branch)
 			}
 			ents := map[int][]string{0: {"Decode", "DecodeHeif", "isobmff.Reader"}, 1: {"PreviewCR3", "DecodeCR3", "isobmff.Reader"}, 2: {"jpeg.ScanJPEG", "DecodeJPEG", "Decode"}, 7: {"xmp.ParseXmp"},
-				4: {"Decode", "DecodeCR3", "isobmff.Reader"}, 5: {"DecodeJPEG", "Decode", "jpeg.ScanJPEG"}, 6: {"xmp.ParseXmp"}}[kind]
+				4: {"Decode", "DecodeCR3", "isobmff.Reader"}, 5: {"DecodeJPEG", "Decode", "jpeg.ScanJPEG"}, 6: {"xmp.ParseXmp"}, 8: {"Decode", "isobmff.Reader"}}[kind]
 			e = harness.EntryByName(ents[y.Intn(3)%len(ents)])
 		}
 		hi = len(data)
@@ -733,9 +737,33 @@ func decodeMixed(c *Ctx, prop string, class int) {
 	if c.Describe && len(data) <= 512 {
 		c.Descf("hex=%x", data)
 	}
+	t0 := time.Now()
 	res := invoke(c, e, env, r)
 	if c.PlanOnly {
 		return
+	}
+	if prop == "C02" && class == 7 && res.Panic == nil {
+		// "CPU time within a generous per-byte watchdog": the inputs of this campaign are the ones
+		// that can make a loop run many times per input byte without touching the device. A call
+		// that takes longer than 1 s + 2 us per byte (a thousand times the usual cost) is repeated twice; three slow executions in
+		// a row are work, not scheduling noise.
+		limit := time.Second + time.Duration(len(data))*2*time.Microsecond
+		if el := time.Since(t0); el > limit {
+			slow := 1
+			for k := 0; k < 2; k++ {
+				c.Dev.Budget = c.Dev.Seq + tickBudget(len(data))
+				t1 := time.Now()
+				harness.Invoke(e, env, newReader(c.Dev, data, flt, dl))
+				if time.Since(t1) > limit {
+					slow++
+				}
+			}
+			if slow == 3 {
+				c.Fail("overwork", e.Name, "cpu-per-byte", fmt.Sprintf("the call took %.1f s for %d bytes, three times in a row (allowance 1 s + 2 us per byte): work that does not consume input", el.Seconds(), len(data)))
+				return
+			}
+			c.Inc("probe:slow-call-not-confirmed")
+		}
 	}
 	c.Inc("fault:" + FaultNames[flt.Kind] + ":configured")
 	if flt.Kind != 0 && r.Fired {
